@@ -17,6 +17,7 @@ EXPLANATION = (
     "bloom buffer must not survive into a state that accepts adds). Decides this lifecycle discipline, not that query answers are "
     "unchanged across every interleaving.")
 EXPLANATION += (" " + 'T7 an assignment into the active slot is dominated (body or every caller) by an emptiness test of that slot / a take(), or happens under &mut Storage; T8 after take/replace/pop of a blob every non-error exit passes a hand-back (None edges carry nothing; close(self) exempt); T9 the (headers, count) results of get_records_headers take the count from header.records_count.')
+EXPLANATION += (" " + 'T10 no `<[u8] as Ord>` comparison in the index code (keys are compared through K / K::Ref); T11 = C02.U6.')
 ASSUMPTIONS = ["State::InMemory / State::OnDisk are the only index states (read from the ADT table)"]
 
 OPEN_NEW = 'blob::core::Blob::<K>::open_new'
